@@ -42,6 +42,7 @@ type FuncInfo struct {
 }
 
 type World struct {
+	shortIdx       map[string]string
 	repo           string
 	fset           *token.FileSet
 	pkgs           map[string]*packages.Package // by import path (all transitively loaded)
@@ -556,3 +557,14 @@ func (w *World) timeType() types.Type {
 // reverse map of string literal constants (for syntactic normalisation of concatenations)
 var litText = map[string]string{}
 var litWorld *World
+
+// shortIndex maps the short names of the repository's functions ("(*ast.Grl).ReceiveRuleEntry") to their keys.
+func (w *World) shortIndex() map[string]string {
+	if w.shortIdx == nil {
+		w.shortIdx = map[string]string{}
+		for k := range w.funcs {
+			w.shortIdx[shortName(k)] = k
+		}
+	}
+	return w.shortIdx
+}
